@@ -63,7 +63,7 @@ class FunctionInfo:
         return "staticmethod" in self.decorators()
 
     def is_property(self) -> bool:
-        return any(d == "property" or d.endswith(".setter") for d in self.decorators())
+        return any(d in ("property", "cached_property", "functools.cached_property") or d.endswith(".setter") for d in self.decorators())
 
     def __hash__(self):
         return hash((self.module.name, self.qualname))
